@@ -52,7 +52,7 @@ RULE = ('BFS over all event histories (alphabet B1 B2 C1 M MD F A S I R X XR K D
 QUICK_BOUND = ('full alphabet (incl. the client builders C1 M MD): depth 6 with at most 2 held groups; alphabet without the client '
                'builders: depth 7 with at most 2 held groups; each on 18 configurations (tz1,tz2,tz3 x c0 in {0,126,2^32-2} x '
                'sandboxed in {no,yes})')
-THOROUGH_BOUND = ('full alphabet: depth 8 with at most 2 held groups and depth 7 with at most 3 held groups; alphabet without the '
+THOROUGH_BOUND = ('full alphabet: depth 8 with at most 2 held groups and depth 6 with at most 3 held groups; alphabet without the '
                   'client builders: depth 9 with at most 2 held groups and depth 8 with at most 3 held groups; same 18 configurations')
 BOUND = {'quick': QUICK_BOUND, 'thorough': THOROUGH_BOUND}
 ASSUMPTIONS = [
@@ -378,7 +378,7 @@ CONFIGS = [{'curve': cv, 'c0': c0, 'sandboxed': sb} for cv in CURVES for c0 in (
 
 LANES = 16
 # measured transitions per shard (thousands), used only to spread the shards evenly over the runner's static lanes
-WEIGHT = {('client', 2, 6): 15, ('base', 2, 7): 7, ('client', 3, 7): 183, ('client', 2, 8): 148, ('base', 3, 8): 42, ('base', 2, 9): 47}
+WEIGHT = {('client', 2, 6): 15, ('base', 2, 7): 7, ('client', 3, 6): 44, ('client', 2, 8): 148, ('base', 3, 8): 42, ('base', 2, 9): 47}
 
 
 def balanced(specs):
@@ -415,7 +415,7 @@ def shards(tier, seed):
         return [dict(cfg, alphabet=alphabet, maxg=maxg, depth=depth) for cfg in CONFIGS]
     if tier == 'quick':
         return balanced(fam('client', 2, 6) + fam('base', 2, 7))
-    return balanced(fam('client', 3, 7) + fam('client', 2, 8) + fam('base', 3, 8) + fam('base', 2, 9))
+    return balanced(fam('client', 3, 6) + fam('client', 2, 8) + fam('base', 3, 8) + fam('base', 2, 9))
 
 
 def cfg_key(cfg):
